@@ -40,7 +40,7 @@ type propCfg struct {
 	Shards  int
 }
 
-var atpFiles = []string{"atp/client.go", "atp/server.go"}
+var atpFiles = []string{"atp/client.go", "atp/server.go", "schema/step.go", "schema/schema.go"}
 
 var props = map[string]propCfg{
 	"C01": {Level: "exploration", Variants: []variant{{Name: "plain"}}, CPUHang: 20},
@@ -53,7 +53,7 @@ var props = map[string]propCfg{
 	"C08": {Level: "fault_enumeration", Variants: []variant{{Name: "plain"}}},
 	"C09": {Level: "exploration", Variants: []variant{{Name: "plain"}}, CPUHang: 20},
 	"C10": {Level: "fault_enumeration", Variants: []variant{{Name: "plain"}}, CPUHang: 20},
-	"C11": {Level: "exploration", Variants: []variant{{Name: "plain"}, {Name: "race", Race: true}}},
+	"C11": {Level: "exploration", Variants: []variant{{Name: "plain"}, {Name: "overlay", Overlay: atpFiles}, {Name: "race", Race: true}}},
 	"C12": {Level: "exploration", Variants: []variant{{Name: "plain"}}, CPUHang: 20},
 	"C13": {Level: "exploration", Variants: []variant{{Name: "race", Race: true}}},
 	"C14": {Level: "exploration", Variants: []variant{{Name: "plain"}}, CPUHang: 20},
